@@ -120,7 +120,7 @@ def doReq (s : DState) (dirLen : Nat) (bytes : Bytes) (cuts : List Nat) (endk : 
     let peerS := if full then "-" else if handed then "open" else if pend && !race then "open" else "eof"
     let newS := if race then " new=open" else ""
     ({ s with connOpen := pend || race },
-     s!"open={openS} real={realS} {respS} conn={connS} peer={peerS} wait={wait}{newS} rfb=ok")
+     s!"open={openS} real={realS} {respS} conn={connS} peer={peerS} wait={wait}{newS} leak=0 rfb=ok")
 
 def dstep (s : DState) (toks : List String) : DState × List String :=
   match toks with
